@@ -170,8 +170,13 @@ pub trait IntoNodeIdentifiers : GraphRef {
     type NodeIdentifiers: Iterator<Item=/*+*/Self::NodeId>;
     /// the node identifiers in iteration order
     spec fn node_ids(self) -> Seq</*-*/Self::NodeId>;
+    /*+*/
+    /// what the implementor needs to enumerate its nodes (its representation invariant where the enumeration is computed, e.g. Csr); `true` unless overridden
+    open spec fn ids_inv(self) -> bool { true }
+    /*-*/
     fn node_identifiers(self) -> (r: Self::NodeIdentifiers)
-        /*+*/ensures r.obeys_prophetic_iter_laws(), r.decrease() is Some, r.remaining() == self.node_ids()/*-*/;   // [node_identifiers_is_node_ids]
+        /*+*/requires self.ids_inv()
+        ensures r.obeys_prophetic_iter_laws(), r.decrease() is Some, r.remaining() == self.node_ids()/*-*/;   // [node_identifiers_is_node_ids]
 }
 //@ end
 
